@@ -71,7 +71,8 @@ META = {
 
 # ----------------------------------------------------------------------------- schema
 CLS = {
-    'A': dict(cols=[('n', dict(alt=True)), ('s', dict(notnull=True)), ('u', dict(unique=True)), ('m', dict(check=100))],
+    'A': dict(cols=[('n', dict(alt=True)), ('s', dict(notnull=True)), ('u', dict(unique=True)), ('m', dict(check=100)),
+                    ('x', dict(asym=True))],
               joins=[('F', 0, 0)], props=True),
     'F': dict(cols=[('v', {})], joins=[('A', 0, 1)]),
     'B': dict(cols=[('a', dict(fk=('A', 'c'))), ('w', dict(unique=True))], props=True),
@@ -83,10 +84,10 @@ CLS = {
     'G': dict(cols=[('a1', dict(fk=('A', 'r'))), ('a2', dict(fk=('A', 'c')))]),
     'K': dict(cols=[('a1', dict(fk=('A', 'n'))), ('a2', dict(fk=('A', 'r')))]),
     'LC': dict(lazy=True, cols=[('a', dict(fk=('A', 'n'))), ('m', {})]),
-    'Lz': dict(lazy=True, cols=[('n', dict(alt=True)), ('m', {})], props=True),
+    'Lz': dict(lazy=True, cols=[('n', dict(alt=True)), ('m', {}), ('x', dict(asym=True))], props=True),
     'Par': dict(inh=True, cols=[('a', dict(alt=True))]),
     'Chi': dict(parent='Par', cols=[('b', dict(alt=True)), ('c', dict(check=100))]),
-    'Gra': dict(parent='Chi', cols=[('g', dict(alt=True))]),
+    'Gra': dict(parent='Chi', cols=[('g', dict(alt=True)), ('x', dict(asym=True))]),
     'DC': dict(cols=[('ref', dict(fk=('Chi', 'r')))]),
     'DP': dict(cols=[('ref', dict(fk=('Par', 'c')))]),
 }
@@ -127,6 +128,9 @@ class Variant(object):
                     attrs[cname] = IntCol(notNone=True, default=1)
                 elif o.get('unique'):
                     attrs[cname] = IntCol(unique=True, default=None)
+                elif o.get('asym'):
+                    # from_python accepts everything IntCol accepts, to_python rejects ASYM_BAD: step 2 of the validation
+                    attrs[cname] = IntCol(default=None, validator=asym_validator())
                 elif o.get('check'):
                     # the only way to get a CHECK clause into an IntCol's generated DDL
                     attrs[cname] = IntCol(default=None, defaultSQL='NULL CHECK (%s < %d)' % (cname, o['check']))
@@ -187,6 +191,26 @@ class Variant(object):
         if self.ncols(c) > len(out):
             out.append(None)
         return out
+
+
+ASYM_BAD = 77
+_asym = []
+
+
+def asym_validator():
+    if not _asym:
+        from formencode import validators
+
+        class RejectOnTheWayBack(validators.Validator):
+            def to_python(self, value, state):
+                if value == ASYM_BAD:
+                    raise validators.Invalid('value %r cannot be converted back' % (value,), value, state)
+                return value
+
+            def from_python(self, value, state):
+                return value
+        _asym.append(RejectOnTheWayBack)
+    return _asym[0]()
 
 
 _variants = {}
@@ -262,7 +286,7 @@ class Env(object):
 
     # ------------------------------------------------------------- running operations
     def pyval(self, v):
-        return 'zz' if v == 'bad' else v
+        return 'zz' if v == 'bad' else (ASYM_BAD if v == 'bad2' else v)
 
     def kwargs(self, c, kw, extras=''):
         d = {}
@@ -439,7 +463,7 @@ def stmt_token(v, q):
 
 # ----------------------------------------------------------------------------- model protocol
 def fmt_v(x):
-    return 'bad' if x == 'bad' else ('N' if x is None else str(x))
+    return 'bad' if x == 'bad' else ('bad2~%d' % ASYM_BAD if x == 'bad2' else ('N' if x is None else str(x)))
 
 
 def fmt_ex(ex):
@@ -665,13 +689,13 @@ def mk_child(v, a, b, cval=_MISSING):
     return ['createChild', c, pkw, ckw]
 
 
-def mk_chain(v, a, b, g):
+def mk_chain(v, a, b, g, x=_MISSING):
     """Gra(a=…, b=…, g=…): three levels; each non-leaf level validates its given keywords, then the
     childName it is handed, then its defaulted columns"""
     P, C, G = v.idx['Par'], v.idx['Chi'], v.idx['Gra']
-    _, gkw = full_kw(v, G, [(0, g)])
+    _, gkw = full_kw(v, G, [(0, g)] + ([(1, x)] if x is not _MISSING else []))
     return ['createChain', [[G, gkw], [C, [(0, b), (2, 2), (1, None)]], [P, [(0, a), (1, 1)]]],
-            [[P, 0, a], [C, 0, b], [G, 0, g]]]
+            [[P, 0, a], [C, 0, b], [G, 0, g]] + ([[G, 1, x]] if x is not _MISSING else [])]
 
 
 def directed(vi):
@@ -717,7 +741,16 @@ def directed(vi):
     out.append(('setattr-dup', hA, ['setattr', A, 1, 0, 2]))
     out.append(('setattr-bad', hA, ['setattr', A, 1, 3, 'bad']))
     out.append(('setattr-ok', hA, ['setattr', A, 1, 3, 4]))
+    # a value that from_python accepts and to_python rejects (validation step 2): before any statement
+    out.append(('setattr-bad2', hA, ['setattr', A, 1, 4, 'bad2']))
+    out.append(('set-bad2-last', hA, ['set', A, 1, [(3, 5), (0, 7), (4, 'bad2')], '']))
+    out.append(('set-bad2-first', hA, ['set', A, 1, [(4, 'bad2'), (3, 5)], '']))
+    out.append(('create-bad2', hA, mk_create(v, 'A', n=3, x='bad2')))
+    out.append(('setattr-asym-ok', hA, ['setattr', A, 1, 4, 5]))
     hL = [mk_create(v, 'Lz', n=1, m=1), mk_create(v, 'Lz', n=2, m=2)]
+    out.append(('lazy-setattr-bad2', hL, ['setattr', Lz, 1, 2, 'bad2']))
+    out.append(('lazy-set-bad2', hL, ['set', Lz, 1, [(1, 5), (2, 'bad2')], '']))
+    out.append(('lazy-create-bad2', hL, mk_create(v, 'Lz', n=3, x='bad2')))
     out.append(('lazy-set-extra', hL, ['set', Lz, 1, [(1, 5)], 'u']))
     out.append(('lazy-set-bad', hL, ['set', Lz, 1, [(1, 5), (0, 'bad')], '']))
     out.append(('lazy-sync-dup', hL + [['set', Lz, 1, [(0, 2), (1, 9)], '']], ['sync', Lz, 1]))
@@ -743,6 +776,7 @@ def directed(vi):
     out.append(('chain3-dup-leaf', hG, mk_chain(v, 2, 2, 1)))
     out.append(('chain3-dup-mid', hG, mk_chain(v, 2, 1, 2)))
     out.append(('chain3-bad-leaf', hG, mk_chain(v, 2, 2, 'bad')))
+    out.append(('chain3-bad2-leaf', hG, mk_chain(v, 2, 2, 2, 'bad2')))
     out.append(('chain3-destroy', hG + [mk_create(v, 'DP', ref=1)], ['destroy', Gra, 1]))
     out.append(('chain3-destroy-refused', hG + [mk_create(v, 'DC', ref=1)], ['destroy', Gra, 1]))
     hI = [mk_child(v, 1, 1)]
@@ -836,15 +870,17 @@ def random_case(ctx, vi):
             return rng.choice([None, 2, 3])
         if col_kind == 'unique':
             return rng.choice([None, 1, 2, 3, 9])
+        if col_kind == 'asym':
+            return rng.choice([None, 5, 6, 'bad2', 'bad2'])
         return rng.choice([None, 5, 99, 100, 150])
-    kinds_A = ['alt', 'notnull', 'unique', 'check']
+    kinds_A = ['alt', 'notnull', 'unique', 'check', 'asym']
     r = rng.random()
     if r < 0.22:
-        cols = rng.sample(range(4), rng.randint(1, 4))
+        cols = rng.sample(range(5), rng.randint(1, 4))
         ex = rng.choice(['', '', '', 'u', 'o', 'b', 'ob', 'bu'])
         op = ['set', ix['A'], rng.choice(ids['A']), [(j, val(kinds_A[j])) for j in cols], ex]
     elif r < 0.30:
-        j = rng.randint(0, 3)
+        j = rng.randint(0, 4)
         op = ['setattr', ix['A'], rng.choice(ids['A']), j, val(kinds_A[j])]
     elif r < 0.42 and ids['Lz']:
         i = rng.choice(ids['Lz'])
@@ -852,13 +888,14 @@ def random_case(ctx, vi):
         if q < 0.4:
             op = ['sync', ix['Lz'], i]
         elif q < 0.8:
-            op = ['set', ix['Lz'], i, [(j, val(['alt', 'check'][j])) for j in rng.sample(range(2), rng.randint(1, 2))],
+            op = ['set', ix['Lz'], i, [(j, val(['alt', 'check', 'asym'][j])) for j in rng.sample(range(3), rng.randint(1, 3))],
                   rng.choice(['', '', 'u', 'b', 'o', 'bu', 'ou'])]
         else:
-            op = ['setattr', ix['Lz'], i, 1, val('check')]
+            j = rng.choice([1, 2])
+            op = ['setattr', ix['Lz'], i, j, val(['alt', 'check', 'asym'][j])]
     elif r < 0.54:
         given = {}
-        for j, nm in enumerate(['n', 's', 'u', 'm']):
+        for j, nm in enumerate(['n', 's', 'u', 'm', 'x']):
             if nm == 'n' and rng.random() < 0.9 or nm != 'n' and rng.random() < 0.5:
                 given[nm] = val(kinds_A[j])
         items = list(given.items())
@@ -878,7 +915,7 @@ def random_case(ctx, vi):
         kw = [] if rng.random() < 0.2 else [(1, rng.choice([None, 1, 2, 7, 'bad', 'bad']))]
         op = ['set', ix['B'], b, kw, ex]
     elif r < 0.63:
-        op = mk_chain(v, val('alt'), val('alt'), val('alt'))
+        op = mk_chain(v, val('alt'), val('alt'), val('alt'), rng.choice([_MISSING, _MISSING, 5, 'bad2']))
     elif r < 0.70:
         op = mk_child(v, val('alt'), val('alt'), rng.choice([_MISSING, None, 5, 100, 'bad']))
     elif r < 0.92:
